@@ -31,6 +31,23 @@ CHECKS = {
     technique="Lean 4 theorems on List.map / lookup-by-identity; metamorphic + differential correspondence on the implementation",
     design="3/C10",
     note="Partial in the sense of DESIGN 3/C10: the refinement 'numpy code = map of the per-particle rule' is established by testing, not by proof."),
+ "C08": dict(
+    text="Proof: decision logic of the per-particle sediment state machine - exact sinking, settle-on-bed, rest, resuspension iff "
+         "tau >= taucrit (tau = 1000*0.003*speed^2 from sqrt laws), never without taucrit, three-valued flag distinct and never back to 1 "
+         "over any history, mining retirement, nearest raster cell within half a cell (from the truncation law), taucrit tables, "
+         "cache transparency for strictly increasing step counters. Tie: bit-exact correspondence of sedimentation/mine update_ibm with "
+         "both flag carriers, grain-size lookup through the real get_taucrit_fn on shipped + synthetic rasters.",
+    technique="Lean 4 theorems (decision logic, iff, induction over histories) on a per-particle state machine; differential correspondence",
+    design="3/C08"),
+ "C20": dict(
+    text="Proof (exact part): reflect∘shift by ±d are piecewise isometries of [0,H] whose interior targets have exactly two preimages "
+         "(no accumulation), clamp piles up; step-variance identities 2·K·dt for the uniform, normal and velocity forms; LaBolle reduces to "
+         "the constant step for constant K; sub-steps cover dt; cap and coarse sampling specs. Partial: the depth-varying sub-claim "
+         "('within the scheme's accuracy') is decided statistically on the implementation with the repository's 10-bin criterion, and "
+         "uniformity/variance are additionally tested with exact binomial / moment bounds (total false-alarm budget 1e-9).",
+    technique="Lean 4 theorems (preimage counting, algebraic identities, induction on the sub-step loop); statistical tests with exact binomial bounds; draw-replay correspondence",
+    design="3/C20",
+    note="The measure-theoretic step 'piecewise isometry with constant preimage count => uniform law invariant' is cited, not formalised."),
 }
 
 def main():
